@@ -17,7 +17,7 @@ use std::{
 };
 
 /// (fuzz target, property, tape check name)
-pub const TARGETS: [(&str, &str, &str); 9] = [
+pub const TARGETS: [(&str, &str, &str); 15] = [
 	("fz_c02", "C02", "roundtrip"),
 	("fz_c03", "C03", "raw"),
 	("fz_c08", "C08", "inputs"),
@@ -27,6 +27,12 @@ pub const TARGETS: [(&str, &str, &str); 9] = [
 	("fz_c18", "C18", "skip"),
 	("fz_c19", "C19", "slice"),
 	("fz_c07", "C07", "bulk-twin"),
+	("fz_c01", "C01", "values"),
+	("fz_c06", "C06", "holder-sequences"),
+	("fz_c11", "C11", "bytes"),
+	("fz_c13", "C13", "max-len"),
+	("fz_c15", "C15", "histories"),
+	("fz_c16", "C16", "rows"),
 ];
 
 struct Target {
